@@ -297,15 +297,42 @@ func c02(r *Report) {
 		for _, n := range []string{"newID", "newSession", "withSession"} {
 			errorsReturnedRule(r, r.W.Fn("", n), false)
 		}
-		// unlink really removes the entry
-		if ul := r.W.Fn("", "unlink"); ul != nil && ul.Blocks != nil {
-			nd := 0
-			for _, in := range instrs(ul) {
-				if c, isD := isBuiltinCall(in, "delete"); isD {
-					if g, isG := unwrapLoad(c.Common().Args[0]).(*ssa.Global); isG && g.Name() == "ctxs" && c.Common().Args[1] == ssa.Value(ul.Params[0]) && c.Block() == ul.Blocks[0] {
-						nd++
+		// every context gets a fresh random ID: the id of each Context built in the core is the
+		// result of newID()
+		{
+			n := 0
+			for _, f := range r.W.Funcs("") {
+				for _, a := range allocsOf(f, M+".Context") {
+					for _, st := range litFieldStores(a)["id"] {
+						n++
+						fresh := true
+						for _, l := range resolveAll(st.Val) {
+							if !isExtractOfCall(l, "M.newID") && !isCallValue(l, "M.newID") {
+								fresh = false
+							}
+						}
+						r.Decide("flow", fnName(f)+": the context ID is a fresh newID()", fresh, "id: <result of newID()>", "a context ID is built from something else than a fresh random ID (a per-session counter, a truncated session ID): IDs repeat across exchanges, and everything keyed by them (HAR entries, marbl frames) is mixed up", st.Pos())
 					}
 				}
+			}
+			if n == 0 {
+				r.Undecided("M.Context.id", "UNRESOLVED: no Context literal with an id")
+			}
+		}
+		// unlink really removes the entry
+		if ul := r.W.Fn("", "unlink"); ul != nil && ul.Blocks != nil {
+			isDel := func(in ssa.Instruction) bool {
+				c, isD := isBuiltinCall(in, "delete")
+				if !isD {
+					return false
+				}
+				g, isG := unwrapLoad(c.Common().Args[0]).(*ssa.Global)
+				return isG && g.Name() == "ctxs" && c.Common().Args[1] == ssa.Value(ul.Params[0])
+			}
+			gu := G(ul)
+			nd := 0
+			if gu.PathTo([]ssa.Instruction{gu.Entry()}, true, isDel, isReturn) == nil {
+				nd = 1
 			}
 			r.Decide("path", "M.unlink removes the request's entry from the table", nd == 1, "delete(ctxs, req), unconditionally", "unlink does not remove the context: it stays retrievable after the exchange ended, and the table grows by one entry per request", ul.Pos())
 		}
@@ -384,6 +411,13 @@ func c02(r *Report) {
 					ownCtx = true
 				}
 			}
+		}
+		// nothing decides the fate of the exchange before the skip test: in the helper no
+		// return precedes it (a routing check that fails first turns a skipped exchange into a 502)
+		if rt != nil {
+			grt := G(rt)
+			early := grt.PathTo([]ssa.Instruction{grt.Entry()}, true, func(i ssa.Instruction) bool { return i == ssa.Instruction(skips[0]) }, isReturn)
+			r.Decide("path", "(*M.Proxy).roundTrip: the skip test comes first", early == nil, "no return is reachable before SkippingRoundTrip() is consulted", "the helper can return (an error, i.e. a 502) before it looks at the skip mark: an exchange whose modifier asked to skip the round trip does not get its 200", rt.Pos())
 		}
 		ok := len(es) == 1 && edgeDominates(es[0].If.Block(), 1, rts[0].Block()) && ownCtx
 		r.Decide("path", "(*M.Proxy).roundTrip: RoundTrip only on the not-skipping edge", ok, "upstream call dominated by SkippingRoundTrip()==false on this exchange's context", "upstream RoundTrip is not guarded by the false edge of ctx.SkippingRoundTrip()", rts[0].Pos())
